@@ -11,6 +11,7 @@ import (
 	"github.com/lyraproj/issue/issue"
 	"github.com/lyraproj/pcore/px"
 	"github.com/lyraproj/pcore/utils"
+	"github.com/lyraproj/pcore/verifhook"
 )
 
 type (
@@ -81,6 +82,7 @@ func (l *fileBasedLoader) LoadEntry(c px.Context, name px.TypedName) px.LoaderEn
 	if entry != nil {
 		return entry
 	}
+	verifhook.Point("filebased.loadentry")
 
 	if name.Namespace() == px.NsConstructor || name.Namespace() == px.NsAllocator {
 		// Process internal. Never found in file system
@@ -267,6 +269,7 @@ func (l *fileBasedLoader) instantiate(c px.Context, smartPath SmartPath, name px
 	if l.GetEntry(name) == nil {
 		// Make absolutely sure that we don't recurse into instantiate again
 		l.SetEntry(name, px.NewLoaderEntry(nil, nil))
+		verifhook.Point("filebased.instantiate.placeholder")
 		smartPath.Instantiator()(c, l, name, origins)
 	}
 	return l.GetEntry(rn)
